@@ -412,7 +412,7 @@ def run_history(seed, scratch: Path, rep: Report, *, nops, weights, checks, conc
         r = await world.unlocked(user)
         buf = io.StringIO()
         with contextlib.redirect_stdout(buf):
-            await r.list_snapshots(header=False)
+            await cmd(r.list_snapshots(header=False), 'list-snapshots')
         rows = [ln.split('\t') for ln in buf.getvalue().splitlines() if ln.strip()]
         seen = {row[0].strip(): row for row in rows}
         want_visible = {n for n, s_ in present.items() if s_['fam'] == user['fam']}
@@ -445,6 +445,9 @@ def run_history(seed, scratch: Path, rep: Report, *, nops, weights, checks, conc
                 got = [p for p in out.rglob('*') if p.is_file()]
                 if res.files or got:
                     viol('restore_foreign', "restore wrote files of another user's snapshot", {'caller': user['name'], 'owner': present[victim]['owner']})
+            except Exception as e:
+                viol('restore_foreign_crash', f"restore naming another user's snapshot (nothing to restore for the caller) raised {type(e).__name__}: {str(e)[:80]}",
+                     {'caller': user['name'], 'owner': present[victim]['owner']})
             finally:
                 shutil.rmtree(out, ignore_errors=True)
 
